@@ -7,6 +7,7 @@ from typing import Dict, Iterable, List, Optional, Tuple
 
 from ..index import AnalysisError, FuncInfo
 from ..fieldflow import Transformer
+from ..cfg import walk_no_nested
 
 
 def short(qual: str) -> str:
@@ -109,7 +110,7 @@ def check_field_flow(ctx, rep, rule: str, tr: Transformer, visitor_cls: Optional
             f, node, how = found
             rep.ok(rule, cons, f"{how} read in {construct_of(f)}", loc=f"{f.path}:{getattr(node, 'lineno', f.lineno)}")
             # CTOR
-            if not ctor:
+            if not ctor or mode == "read":
                 continue
             for cf, call, inputs in tr.ctor_sites(cls):
                 for fld in sorted(mf):
@@ -129,3 +130,38 @@ def check_field_flow(ctx, rep, rule: str, tr: Transformer, visitor_cls: Optional
         for fld in fields:
             if fld not in covered_fields:
                 rep.undecided(rule, f"{owner}:{kname}.{fld}", "field has no entry in the obligation table (new field?)")
+
+
+def position_visited(ctx, tr: Transformer, cls: str, member: str, sub_attr: Optional[str] = None,
+                     via_methods: Iterable[str] = ()) -> Optional[Tuple[FuncInfo, ast.AST]]:
+    """Is the IR position (cls.member[.sub_attr]) passed to the visitor's own
+    ``visit`` (or one of ``via_methods`` of the visitor) somewhere in ``tr``?"""
+    ix, T = ctx.ix, ctx.typer
+    hier = set(ix.mro(cls)) | set(ix.subclasses(cls))
+    via = set(via_methods)
+    for f in tr.funcs:
+        fl = tr.flows[f.qualname]
+        for cs in T.callsites(f):
+            if not isinstance(cs.node, ast.Call) or not cs.node.args:
+                continue
+            is_visit = cs.kind == "visit"
+            is_via = cs.kind == "method" and any(t.name in via for t in cs.targets)
+            if not (is_visit or is_via):
+                continue
+            arg = cs.node.args[0]
+            if sub_attr is not None:
+                # the argument itself (or what it is defined from) must be <expr>.sub_attr
+                cands = [arg] + [d for n in [arg] if isinstance(n, ast.Name) for d in fl.defs.get(n.id, [])]
+                ok_sub = False
+                for c in cands:
+                    if isinstance(c, ast.Attribute) and c.attr == sub_attr:
+                        ok_sub = True
+                if not ok_sub:
+                    continue
+            ids, _ = fl.depends(arg)
+            for m in walk_no_nested(f.node):
+                if id(m) in ids and isinstance(m, ast.Attribute) and m.attr == member and isinstance(m.ctx, ast.Load):
+                    rt = {t for t in T.types_of(m.value) if t in ix.classes}
+                    if (rt & hier) or not rt:
+                        return f, cs.node
+    return None
